@@ -1,4 +1,5 @@
 import QuillModel.Uspsc.Api
+import QuillModel.Uspsc.ReadPass
 import QuillModel.Drivers.Spsc
 /-! Correspondence driver for the unbounded queue: replays the trace of `harness/h1_uspsc.cpp` on the model. -/
 namespace Drv.Uspsc
@@ -18,10 +19,12 @@ structure Ctx where
   throws : Nat := 0
   reads : Nat := 0
   stale : Nat := 0
+  passes : Nat := 0     -- `rp` lines (whole read passes)
+  chained : Nat := 0    -- … that followed the chain through more than one switch
   coh : Bool := false   -- the consumer has observed `next` of its node (possibly only through `empty()`)
 
 def Ctx.summary (c : Ctx) (id : String) : String :=
-  s!"TRACE {id} lines={c.nlines} grows={c.grows} shrinks={c.shrinks} switches={c.switches} grants={c.grants} denies={c.denies} throws={c.throws} reads={c.reads} stale={c.stale}"
+  s!"TRACE {id} lines={c.nlines} grows={c.grows} shrinks={c.shrinks} switches={c.switches} grants={c.grants} denies={c.denies} throws={c.throws} reads={c.reads} stale={c.stale} passes={c.passes} chained={c.chained}"
 
 def checkUOps (o : UParams) : US → List UOp → List String
   | _, [] => []
@@ -54,6 +57,9 @@ def apiLine (c : Ctx) (ws : List String) (follow : Option Bool) : Option (List U
   | ["sh", x] => let r := apiShrink c.s (nat! x); some (r.1, r.2.show)
   | ["pr", k1, k2, k3, k4] =>
     let r := apiPrepareRead c.o c.f c.s c.coh (nat! k1) (nat! k2) (nat! k3) (nat! k4); some (r.1, r.2.show)
+  | ["rp", fl] =>
+    -- the backend's read of the queue: `prepare_read()`, repeated after a switch into an empty node when `fl` = 1
+    let r := apiRead (fl == "1") c.o c.f c.s.n c.s; some (r.1, r.2.show)
   | ["fr", n] => some ([.c (.read (nat! n))], "ok")
   | ["cr"] =>
     let b := match follow with | some b => b | none => publishes c.o.q c.s.cnode.q
@@ -109,8 +115,11 @@ def runTrace (followPub : Bool) : IO UInt32 := do
             denies := c.denies + (if isPw && mobs.endsWith "null" then 1 else 0),
             throws := c.throws + (if mobs == "throw" then 1 else 0),
             reads := c.reads + (if (mobs.splitOn "read ").length > 1 then 1 else 0),
+            passes := c.passes + (if ws.head? == some "rp" then 1 else 0),
+            chained := c.chained + (if ws.head? == some "rp" && (mobs.splitOn "switch").length > 2 then 1 else 0),
             stale := c.stale + staleInc,
-            coh := if mobs.startsWith "switch" then false
+            coh := if ws.head? == some "rp" && ws.tail == ["1"] && mobs.startsWith "switch" && mobs.endsWith "null" then s'.sawNext
+                   else if mobs.startsWith "switch" then false
                    else c.coh || s'.sawNext || (ws.head? == some "em" && mobs == "empty 0" &&
                                                  decide (s'.cnode.q.wcache = s'.cnode.q.rpos)) }
         ctx := some c'
